@@ -6,6 +6,7 @@ import (
 	"fmt"
 	"go/token"
 	"go/types"
+	"os"
 	"sort"
 	"strings"
 
@@ -353,7 +354,13 @@ func checkC15(c *Ctx) {
 						rs := b.sl.Slice(cl.Call.Args[0])
 						return sliceHas(rs, func(y ssa.Value) bool {
 							lk, ok := y.(*ssa.Lookup)
-							return ok && lk.Parent() == fn && isLoadOfField(lk.X, b.fPending) && (sameValue(lk.Index, key) || b.sl.sameRoot(lk.Index, key))
+							if os.Getenv("TSSDEBUG") != "" && ok {
+								fmt.Fprintf(os.Stderr, "C15.O1 %s: lookup %s in %s same=%v\n", FuncName(fn), m.Pos(lk.Pos()), FuncName(lk.Parent()), b.sl.sameRoot(lk.Index, key))
+							}
+							if !ok || !isLoadOfField(lk.X, b.fPending) || !(sameValue(lk.Index, key) || b.sl.sameRoot(lk.Index, key)) {
+								return false
+							}
+							return lk.Parent() == fn || calledInOneSection(b, lk.Parent(), fn)
 						})
 					})
 					// the instruction of fn that performs the inner deletion: d2 itself or the call leading to it
@@ -674,4 +681,34 @@ func ruleClockTicks(c *Ctx, b *boxModel, rule string) {
 	if n == 0 {
 		c.Bad(rule, "msg", "ticker construction", "-", "no call of Box.NewTicker found: nothing drives the epoch")
 	}
+}
+
+// calledInOneSection: some function of the package calls both f and g (plain calls) inside one exclusive
+// section of Box.lock — a step of f and a step of g then belong to the same critical section (the look-up
+// of the buffer in one helper of Send, its release in the next).
+func calledInOneSection(b *boxModel, f, g *ssa.Function) bool {
+	for _, h := range b.fns {
+		var cf, cg []ssa.Instruction
+		for _, in := range instrsOf(h) {
+			cl, ok := in.(*ssa.Call)
+			if !ok {
+				continue
+			}
+			switch staticCallee(&cl.Call) {
+			case f:
+				cf = append(cf, in)
+			case g:
+				cg = append(cg, in)
+			}
+		}
+		for _, x := range cf {
+			for _, y := range cg {
+				sx, sy := b.la.sectionOf(x, b.boxLock), b.la.sectionOf(y, b.boxLock)
+				if sx != nil && sx == sy && b.la.Holds(x, b.boxLock, LockW) && b.la.Holds(y, b.boxLock, LockW) {
+					return true
+				}
+			}
+		}
+	}
+	return false
 }
